@@ -39,6 +39,7 @@ type PropSpec struct {
 	Assumptions []string    `json:"assumptions,omitempty"`
 	Outside  []string       `json:"outside_claim,omitempty"`
 	RequireReach []string   `json:"require_reach,omitempty"`
+	Solver   string         `json:"solver,omitempty"`
 }
 
 type Case struct {
@@ -193,7 +194,7 @@ func runCase(ld *Loaded, c Case, known map[string]bool, timeoutMs int, defSolver
 		ex.primaryMs = v
 	}
 	ex.vcTimeout = time.Duration(timeoutMs) * time.Millisecond
-	ex.noPortfolio = sname != "z3" || os.Getenv("VP_NOPORTFOLIO") != ""
+	ex.noPortfolio = (sname != "z3" && sname != "z3-new") || os.Getenv("VP_NOPORTFOLIO") != ""
 	ex.feasBranches = true
 	ex.feasMs = 2000
 	if v, ok := c.Opts["feasms"]; ok {
@@ -523,6 +524,9 @@ func main() {
 		}
 	}
 	defSolver := "z3"
+	if ps.Solver != "" {
+		defSolver = ps.Solver
+	}
 	if s := os.Getenv("VP_SOLVER"); s != "" {
 		defSolver = s
 	}
